@@ -64,6 +64,7 @@ type vc08Case struct {
 	Pin2  *vc08PinIn  `json:"pin2,omitempty"`  // kind eq: the pin compared with Pin
 	Same  bool        `json:"same,omitempty"`  // kind eq: compare the value with itself (same pointer)
 	Fuzz  *vc08Fuzz   `json:"fuzz,omitempty"`  // kind fuzz: one recorded malformed input
+	Add   *vc08AddIn  `json:"add,omitempty"`   // kind ap: add parameters through ToQueryString / AddParamsFromQuery
 }
 
 // which universe a token's valid values come from
@@ -858,7 +859,11 @@ func vc08RunWire(out *vOut, c vc08Case) {
 func hexString(b []byte) string { return fmt.Sprintf("%x", b) }
 
 func vc08Gen(r *vRand) vc08Case {
-	switch x := r.intn(125); {
+	switch x := r.intn(140); {
+	case x >= 133:
+		return vc08GenAddRaw(r)
+	case x >= 125:
+		return vc08GenAdd(r)
 	case x >= 100:
 		return vc08GenOnto(r)
 	case x < 20:
@@ -908,6 +913,12 @@ func vc08Run(out *vOut, c vc08Case) {
 			vc08RunCodec(out, c)
 		case "mpo", "jso":
 			vc08RunOnto(out, c)
+		case "ap":
+			if c.Add != nil {
+				vc08RunAdd(out, c)
+			}
+		case "apraw":
+			vc08RunAddRaw(out, c)
 		case "eq":
 			if c.Pin != nil {
 				vc08RunEq(out, c)
